@@ -89,6 +89,25 @@ theorem reload_prereq_kept (s : State) (old new : List Pre) (pr : Pre) (hpr : pr
   rw [hold] at this
   exact ⟨this, lastState_some_mem old a w hold⟩
 
+/-- in particular **a prerequisite that was unsatisfied stays unsatisfied** whatever the DB records for its upstream
+output (e.g. the task was removed and spawned again after the upstream task had finished) -/
+theorem reload_unsatisfied_stays (s : State) (old new : List Pre) (pr : Pre) (hpr : pr ∈ reloadPre s old new)
+    (a : Atom) (v : Bool) (hav : (a, v) ∈ pr.atoms) (hocc : a ∈ (old.flatMap (·.atoms)).map (·.1))
+    (hall : ∀ b ∈ old.flatMap (·.atoms), b.1 = a → b.2 = false) : v = false := by
+  cases hl : lastState old a with
+  | none => exact absurd hocc ((lastState_none_iff old a).mp hl)
+  | some w =>
+    obtain ⟨hv, hm⟩ := reload_prereq_kept s old new pr hpr a v w hav hl
+    rw [hv]
+    exact hall (a, w) hm rfl
+
+/-- **manually completed outputs survive**: the successor keeps the completed outputs together with their forced marks
+(the outputs object is carried over as it is) -/
+theorem reload_keeps_forced_outputs (g' : Graph) (s : State) (x : Proxy) :
+    (reloadProxy g' s x).done = x.done ∧ (reloadProxy g' s x).forced = x.forced := by
+  unfold reloadProxy
+  split <;> exact ⟨rfl, rfl⟩
+
 /-- **New prerequisites are satisfied only from outputs already recorded**: an atom the old proxy did not have is
 satisfied iff the committed `task_outputs` row of the upstream instance contains the output. -/
 theorem reload_prereq_new_from_db (s : State) (old new : List Pre) (pr : Pre) (hpr : pr ∈ reloadPre s old new)
